@@ -212,7 +212,21 @@ fn boundary_mutate(rng: &mut Rng, chain: &Chain, proto: P, data: &P2pBytes) -> O
                 packed::LightClientMessageUnionReader::SendLastStateProof(r) => {
                     let e = r.to_entity();
                     let headers: Vec<packed::VerifiableHeader> = e.headers().into_iter().collect();
-                    match rng.below(6) {
+                    match rng.below(7) {
+                        6 if !headers.is_empty() => {
+                            // a reorg-looking section in front: k genuine headers right below the first one (k is a guess of the
+                            // client's last-N value), the first of them with an extreme total difficulty in its chain root
+                            let first: u64 = headers[0].header().raw().number().unpack();
+                            let k = *rng.pick(&[1u64, 2, 3, 5, 10, 25, 100]);
+                            if first <= k || first > chain.tip() {
+                                return None;
+                            }
+                            let mut pre: Vec<packed::VerifiableHeader> = ((first - k)..first).map(|n| chain.vh(n)).collect();
+                            let root = pre[0].parent_chain_root().as_builder().total_difficulty(b256(rng).pack()).build();
+                            pre[0] = pre[0].clone().as_builder().parent_chain_root(root).build();
+                            pre.extend(headers.iter().cloned());
+                            Some((server::lc_msg(e.as_builder().headers(packed::VerifiableHeaderVec::new_builder().set(pre).build()).build()), format!("SendLastStateProof|reorg-section-prepended-k{}|first-td-extreme", k)))
+                        }
                         0 if !headers.is_empty() => {
                             let i = rng.pick_idx(headers.len());
                             let (vh, op) = boundary_vh(rng, chain, &headers[i]);
